@@ -116,8 +116,9 @@ func genHist(r *sim.Rand, tier string, prop string) *sim.Plan {
 			}
 			p.Steps = append(p.Steps, sim.MustJSON(s))
 		case 1:
-			// target selectors: 0..5 = head-n ; 6 = 0 ; 7 = far back (head-11..head-14) ; 8 = head+1 ; 9 = head
-			sel := []int{0, 1, 1, 2, 3, 4, 5, 6, 7, 7, 8, 9, 10}[r.Intn(13)]
+			// target selectors: 0..5 = head-n ; 6 = 0 ; 7 = far back (head-11..head-14) ; 8 = head+1 ; 9 = head ; 10 = head+7 ;
+			// 11 = the lowest height whose journal is retained (the edge of the window) ; 12 = one below it ; 13 = head-6..head-9
+			sel := []int{0, 1, 1, 2, 3, 4, 5, 6, 7, 7, 8, 9, 10, 11, 11, 12, 13}[r.Intn(17)]
 			p.Steps = append(p.Steps, sim.MustJSON(HStep{Op: "rollback", N: sel}))
 			if r.Chance(0.4) {
 				p.Steps = append(p.Steps, sim.MustJSON(HStep{Op: "replay"}))
@@ -207,7 +208,9 @@ func commitBlock(n *node, s HStep) *mBlock {
 	for i := 0; i < s.IC; i++ {
 		sl := &pb.VerifiedIndexSlice{}
 		for j := 0; j <= i; j++ {
-			sl.Slice = append(sl.Slice, &pb.VerifiedIndex{Index: uint64(j), Valid: true})
+			// every third index is one the executor recorded as not verified (its destination was unavailable): it is an
+			// interchain transaction of the block all the same
+			sl.Slice = append(sl.Slice, &pb.VerifiedIndex{Index: uint64(j), Valid: (h+uint64(i+j))%3 != 0})
 			ic++
 		}
 		meta.Counter[fmt.Sprintf("chain%d", i)] = sl
@@ -497,6 +500,19 @@ func execHist(prop string, p *sim.Plan, keep bool) *sim.Result {
 				target = head + 1
 			case s.N == 9:
 				target = head
+			case s.N == 11 && m.minJnl > 0 && m.minJnl <= head:
+				target = m.minJnl
+				res.Count("probe_rollback_to_the_edge_of_the_journal_window")
+			case s.N == 12 && m.minJnl > 1 && m.minJnl <= head:
+				target = m.minJnl - 1
+				res.Count("probe_rollback_to_one_below_the_journal_window")
+			case s.N == 13:
+				back := uint64(6 + (i % 4))
+				if back > head {
+					target = 0
+				} else {
+					target = head - back
+				}
 			default:
 				target = head + 7
 			}
